@@ -87,9 +87,9 @@ pub fn type_cast<Data: GarnishData>(this: &mut Data) -> Result<Option<Data::Size
             this.end_list(list_index).and_then(|r| this.push_register(r))?
         }
         (GarnishDataType::Range, GarnishDataType::List) => {
-            let (start, end) = this.get_range(left.clone())?;
-            let len = end - start + Data::Size::one();
-            let (start, end, _) = get_range(this, left)?;
+            // length comes from the range's values, not from the addresses they are stored at
+            let (start, end, len) = get_range(this, left)?;
+            let len = <Data as GarnishData>::DataFactory::number_to_size(len).or_num_err()?;
             let mut count = start;
 
             let mut list_index = this.start_list(len)?;
